@@ -59,7 +59,8 @@ struct BG {
 };
 
 // exact-domain precondition of the properties: every path / cycle / basis sum must be exactly representable in a double.
-// Conservative test: all weights are positive multiples of their common lowest set bit L and total*(m+2)/L < 2^52.
+// Sufficient test: all weights are positive multiples of their common lowest set bit L; every path / cycle sum is a multiple
+// of L below the total T, and a basis total is below T*dim: so T*max(1,dim)*slack/L < 2^52 (slack 2: approximate bases).
 inline bool in_exact_domain(const GraphSpec &g) {
     if (g.w.empty()) return true;
     double tot = 0, lowest = 1e300;
@@ -73,7 +74,8 @@ inline bool in_exact_domain(const GraphSpec &g) {
         while (std::fmod(w, step * 2) == 0 && step < w) step *= 2;   // value of the lowest set bit
         lowest = std::min(lowest, step);
     }
-    return tot * (double) (g.m() + 2) / lowest < std::ldexp(1.0, 52);
+    int dim = cycle_dim(g);
+    return tot * (double) std::max(1, dim) * 2.0 / lowest < std::ldexp(1.0, 52);
 }
 
 // input class helpers -----------------------------------------------------------------
